@@ -798,10 +798,18 @@ func (c *Client) Do(ctx context.Context, q Query) (err error) {
 	})
 	if err := g.Wait(); err != nil {
 		if !c.IsClosed() {
-			// The client stays usable, e.g. after a server exception. Drop
-			// whatever was encoded for the failed query but not flushed yet,
-			// so that it is not sent ahead of the next request.
-			c.writer = proto.NewWriter(c.conn, new(proto.Buffer))
+			if !IsException(err) {
+				// The receive loop ended with a server exception (so nobody
+				// cancelled the query) but the call fails for another reason,
+				// e.g. the sender hit a transport error first. The connection
+				// is in an unknown state: do not leave it open for reuse.
+				_ = c.Close()
+			} else {
+				// The client stays usable after a server exception. Drop
+				// whatever was encoded for the failed query but not flushed
+				// yet, so that it is not sent ahead of the next request.
+				c.writer = proto.NewWriter(c.conn, new(proto.Buffer))
+			}
 		}
 		if ctxErr := parentCtx.Err(); ctxErr != nil && !errors.Is(err, ctxErr) {
 			// E.g. a write blocked until the deadline copied from the context
